@@ -291,3 +291,25 @@ Proof.
     injection H1 as <-. constructor. intros q w [<-|[<-|[]]] _; constructor. }
   split; vm_compute; reflexivity.
 Qed.
+
+(* non-vacuity of the full statement for an embedded text that is NOT compact: a j5 Any whose stored
+   JSON has white space and a non-canonical escape ({ "a" : "\u0041" }); the output embeds it verbatim
+   and still reads as one document whose value member is that text's JSON value *)
+Definition ea_env : env := [([82], SObject [mkProp [97] [1] false true [] (FAny false)])].
+Definition ea_json : bytes := [123; 32; 34; 97; 34; 32; 58; 32; 34; 92; 117; 48; 48; 52; 49; 34; 32; 125].
+Definition ea_msg : msg := [(1, VMsg [(1, VStr [84]); (3, VBytes ea_json)])].
+Definition ea_txt : bytes := Eval vm_compute in
+  match encode ex_fmt ex_inner ea_env [82] ea_msg with Ok t => t | _ => [] end.
+Definition ea_tree : jvalue := JObj [([97], JObj [(txt_type, JStr [84]); (txt_value, JObj [([97], JStr [65])])])].
+Example C08_example_embedded_text :
+  raw_root_gen ea_env json_text [82] ea_msg /\
+  encode ex_fmt ex_inner ea_env [82] ea_msg = Ok ea_txt /\
+  strict_parse ea_txt = Some ea_tree /\ ea_txt <> print ea_tree.
+Proof.
+  split.
+  - unfold raw_root_gen. change (lookup ea_env [82]) with (Some (SObject [mkProp [97] [1] false true [] (FAny false)])).
+    constructor. intros p v Hp Hv. destruct Hp as [<-|[]]. vm_compute in Hv. injection Hv as <-.
+    constructor. intros m s [= <-] _ Hs. vm_compute in Hs. injection Hs as <-.
+    eexists. vm_compute. reflexivity.
+  - split; [vm_compute; reflexivity|]. split; [vm_compute; reflexivity|vm_compute; discriminate].
+Qed.
